@@ -461,6 +461,29 @@ pub fn pty_run_fds(cols: u32, cwd: &Path, bin: &str, args: &[&str], fds: &str, o
   pty_run_stdin(cols, cwd, bin, args, fds, other, Path::new("/dev/null"))
 }
 
+/// Run `bin args` with standard output connected to a one-page pipe that is not read until the command is blocked writing
+/// to it, then suspend and resume the command (SIGSTOP / SIGCONT, what Ctrl-Z and `fg` do to a pipeline), so that a write
+/// returns short, and only then drain the pipe (helper `tools/stall_run.py`; None without python3). Returns what was
+/// written, the exit status, and whether the output was large enough to stall at all. Standard error goes to `stderr_to`.
+pub fn stalled_run(cwd: &Path, bin: &str, args: &[&str], stderr_to: &Path, stdin: Option<&Path>) -> Option<(Out, bool)> {
+  let helper = ["tools/stall_run.py", "/verif/tools/stall_run.py"].iter().map(PathBuf::from).find(|p| p.exists())?;
+  let helper = std::fs::canonicalize(helper).ok()?;
+  let mut c = Command::new("python3");
+  c.arg(helper).arg(cwd).arg(stderr_to).arg(bin).args(args).env("TERM", "dumb").stdin(Stdio::null());
+  if let Some(s) = stdin {
+    c.env("STALL_STDIN", s);
+  }
+  let o = c.output().ok()?;
+  let text = String::from_utf8_lossy(&o.stdout).into_owned();
+  let mut lines = text.lines();
+  let hexed = lines.next()?;
+  let code: i32 = lines.next()?.trim().parse().ok()?;
+  let stalled = lines.next()?.trim() == "stalled";
+  let bytes: Vec<u8> = (0..hexed.len() / 2).filter_map(|i| u8::from_str_radix(&hexed[2 * i..2 * i + 2], 16).ok()).collect();
+  let stderr = std::fs::read(stderr_to).unwrap_or_default();
+  Some((Out { code: if code >= 0 { Some(code) } else { None }, signal: if code < 0 { Some(-code) } else { None }, stdout: bytes, stderr, timed_out: false }, stalled))
+}
+
 /// The same with standard input read from the file `stdin`.
 pub fn pty_run_stdin(cols: u32, cwd: &Path, bin: &str, args: &[&str], fds: &str, other: &Path, stdin: &Path) -> Option<Out> {
   let helper = ["tools/pty_run.py", "/verif/tools/pty_run.py"].iter().map(PathBuf::from).find(|p| p.exists())?;
